@@ -15,7 +15,7 @@
 From Coq Require Import String List Bool Arith.
 From KV Require Import Lib.Str Lib.StrOps Lib.ODict Gen.Tags Gen.Pipeline Model.Engine Model.EngineSM Model.EngineDomain Spec.RefExpand
                        Model.EngineDomain16 Spec.RefExpand16 Lib.TableDef Model.TTable
-                       Proofs.EnginePipe Proofs.EngineC16 Proofs.EngineRepl Proofs.EngineBlock Proofs.EngineTT Proofs.EngineWhole16.
+                       Proofs.EnginePipe Proofs.EngineC16 Proofs.EngineRepl Proofs.EngineBlock Proofs.EngineTT Proofs.EngineTrans Proofs.EngineWhole16.
 Import ListNotations.
 Open Scope string_scope.
 Open Scope list_scope.
@@ -110,10 +110,22 @@ Print Assumptions C16_stage_in_source.
    of each row; events, actions, guards; signatures keyed by the (action, event) pair; the generator's events = table events
    followed by the interface's structs not among them) are the first-appearance lists of the table, for every table. *)
 Theorem C16_model_first_appearance : forall tt structs protos msgs m,
-  tt_model tt structs protos msgs = Some m ->
+  tt_model tt structs protos msgs = Some m -> sm_tps m = tps_of (table_of tt) ->
   elements_of_model m = elements_of (table_of tt) structs protos msgs.
 Proof. exact model_elements. Qed.
 Print Assumptions C16_model_first_appearance.
+
+(* The nested blocks: per state > per event > per transition.  For EVERY transition structure (states with their events with
+   their transitions, each transition the table of the name tags it defines) and every body of the grammar,
+   innerexpand_transitionsperstate returns the reference: the per-state lines once per state, inside them the per-event
+   lines once per event of the state, inside those the per-transition lines once per transition, in order; a line that
+   mentions a name the transition lacks (no guard / action / target) is dropped, or replaced by the alternative text given
+   in the tag at the line's indentation. *)
+Theorem C16_nested_block_is_ref : forall tps body,
+  forallb titem_ok body = true -> tps_wf tps = true ->
+  inner_tps tps (flat_map render_titem body) None = Some (ref_trans tps body).
+Proof. exact inner_tps_is_ref. Qed.
+Print Assumptions C16_nested_block_is_ref.
 
 (* THE WHOLE TEMPLATE.  For every state-machine model m, every first-filter dictionary over the first-filter tags and every
    template of the grammar (text lines and any number of per-element / per-signature blocks of any kinds, in any order) that
@@ -127,7 +139,7 @@ Print Assumptions C16_engine_is_ref.
 
 (* ... and with the element lists read off the transition table in first-appearance order *)
 Theorem C16_engine_is_ref_table : forall tt structs protos msgs m dict t,
-  tt_model tt structs protos msgs = Some m -> dict_ok dict = true -> in_grammar16 t = true ->
+  tt_model tt structs protos msgs = Some m -> sm_tps m = tps_of (table_of tt) -> dict_ok dict = true -> in_grammar16 t = true ->
   wf16_rows tt structs protos msgs t = true ->
   engine16 m dict t = Some (ref16_rows tt structs protos msgs t).
 Proof. exact engine16_is_ref_table. Qed.
@@ -137,7 +149,19 @@ Definition ex16 : template16 :=
   [Text "// guards first"; Block KGuard "    " "  " [[Lit "g "; Tag "GUARDNAME" None; Lit " "; Tag "NUM" None]];
    Text "	x"; SigBlock "" "" [[Tag "actionName" None; Lit "("; Tag "EVENTNAME" None; Lit ")"]];
    Block KState "" "" [[Lit "  "; Tag "ALPH" None; Lit " "; Tag "STATE_NAME" None]; [Lit "  -"]];
-   Block KGuard "	" "" [[Tag "guardName" None]]; Text "// end"].
+   Block KGuard "	" "" [[Tag "guardName" None]];
+   TransBlock "    " "    "
+     [TLine [Lit "    def process"; Tag "STATENAME" None; Lit "(self, event):"];
+      TEvent "        " "        "
+        [ELine [Lit "        if isinstance(event, "; Tag "EVENTNAME" None; Lit "):"];
+         EGuard "            " "            "
+           [[Lit "            if self.context."; Tag "GUARDNAME" (Some "if True:"); Lit "(event):"];
+            [Lit "                self.context.On"; Tag "STATENAMEIFNEXTSTATE" None; Lit "Exit(event)"];
+            [Lit "                self.context."; Tag "ACTIONNAME" None; Lit "(event)"];
+            [Lit "                self.currentState = c"; Tag "NEXTSTATENAME" None];
+            [Lit "                return"]]];
+      TLine [Lit "        self.context.NoTransition(event) # "; Tag "stateName" None]];
+   Text "// end"].
 Example C16_block_is_ref_nonvacuous :
   let body := [[Lit "  "; Tag "NUM" None; Tag "ALPH" None; Lit " "; Tag "STATENAME" None; Lit " "; Tag "stateName" None; Lit " "; Tag "STATE_NAME" None]] in
   forallb (body_line_ok (keys_of KState)) body = true
@@ -166,6 +190,7 @@ Print Assumptions C16_nonvacuous.
 Example C16_engine_is_ref_nonvacuous :
   in_grammar16 ex16 = true /\ wf16_rows cd_rows [] [] [] ex16 = true
   /\ option_map (fun m => engine16 m [] ex16) (tt_model cd_rows [] [] []) = Some (Some (ref16_rows cd_rows [] [] [] ex16))
-  /\ String.length (ref16_rows cd_rows [] [] [] ex16) = 267.
-Proof. split; [|split; [|split]]; vm_compute; reflexivity. Qed.
+  /\ option_map (fun m => list_eqb_tps (sm_tps m) (tps_of (table_of cd_rows))) (tt_model cd_rows [] [] []) = Some true
+  /\ Nat.ltb 900 (String.length (ref16_rows cd_rows [] [] [] ex16)) = true.
+Proof. split; [|split; [|split; [|split]]]; vm_compute; reflexivity. Qed.
 Print Assumptions C16_engine_is_ref_nonvacuous.
